@@ -203,8 +203,9 @@ Proof.
   intros h mb fr ms [x l] (Hx & Hpos & Hl & Hlen) Hf. cbn [fst snd] in *.
   change (v1_record_lines 2 (x, l)) with (map wnum (x :: l) ++ [nl]).
   rewrite v1_line_run by (constructor; assumption).
+  pose proof (v1_freq_some h (mkv1 false 2 mb 0 false fr ms) (x, l) Hpos Hf) as HF. cbn [fst] in HF.
   destr8 l Hlen. cbn [map]. unfold v1_line. cbn [v_first v_noise v_row v_ports length Nat.eqb].
-  unfold v1_two_port. rewrite (v1_freq_some h _ (x, _)) by assumption. reflexivity.
+  unfold v1_two_port. rewrite HF. reflexivity.
 Qed.
 
 (* the first line of a 2-port file *)
@@ -215,20 +216,166 @@ Proof.
   intros h [x l] Hh (Hx & Hpos & Hl & Hlen). cbn [fst snd] in *.
   change (v1_record_lines 2 (x, l)) with (map wnum (x :: l) ++ [nl]).
   rewrite v1_first_line_run by (auto; constructor; assumption).
+  pose proof (v1_freq_some h (mkv1 true 0 false 0 false [] []) (x, l) Hpos I) as HF. cbn [fst] in HF.
   destr8 l Hlen. cbn [map]. unfold v1_line. cbn [v_first length Nat.even Nat.ltb Nat.leb Nat.eqb orb].
-  unfold v1_two_port. rewrite (v1_freq_some h _ (x, _)) by (auto; exact I).
+  unfold v1_two_port. rewrite HF.
   destruct (is_hg (h_type h)); reflexivity.
 Qed.
 
 (* a noise line *)
-Lemma noise_line_data : forall h n mb fr ms l, Forall num_ok l -> length l = 5 ->
-  fold_left pstep (map wnum l ++ [nl]) (SV1Wait h (mkv1 false n mb 0 false fr ms)) =
-  SV1Wait h (mkv1 false n false 0 true fr ms).
+Lemma noise_line_data : forall h mb fr ms l, Forall num_ok l -> length l = 5 ->
+  fold_left pstep (map wnum l ++ [nl]) (SV1Wait h (mkv1 false 2 mb 0 false fr ms)) =
+  SV1Wait h (mkv1 false 2 false 0 true fr ms).
 Proof.
-  intros h n mb fr ms l Hl Hlen.
+  intros h mb fr ms l Hl Hlen.
   destruct l as [|a0 [|a1 [|a2 [|a3 [|a4 [|? ?]]]]]]; try discriminate Hlen.
-  rewrite v1_line_run by assumption. unfold v1_line. cbn [v_first v_noise v_row v_ports length Nat.eqb map].
-  destruct (n =? 2) eqn:E.
-  - reflexivity.
-  - destruct n as [|[|[|?]]]; try reflexivity. discriminate E.
+  rewrite v1_line_run by assumption. reflexivity.
+Qed.
+Lemma noise_line_noise : forall h fr ms l, Forall num_ok l -> length l = 5 ->
+  fold_left pstep (map wnum l ++ [nl]) (SV1Wait h (mkv1 false 2 false 0 true fr ms)) =
+  SV1Wait h (mkv1 false 2 false 0 true fr ms).
+Proof.
+  intros h fr ms l Hl Hlen.
+  destruct l as [|a0 [|a1 [|a2 [|a3 [|a4 [|? ?]]]]]]; try discriminate Hlen.
+  rewrite v1_line_run by assumption. reflexivity.
+Qed.
+
+(* ---- the general row reader (ports other than 2) -------------------------------------------------- *)
+Lemma next_row_line : forall h n k fr m ms x xs, 1 <= k -> k < n -> Forall num_ok (x :: xs) ->
+  length (x :: xs) = 2 * n ->
+  fold_left pstep (map wnum (x :: xs) ++ [nl]) (W h n k fr (m :: ms)) =
+  W h n (if S k =? n then 0 else S k) fr ((m ++ pairs_of (map n_val (x :: xs))) :: ms).
+Proof.
+  intros h n k fr m ms x xs Hk Hkn Hok Hlen. unfold W. rewrite v1_line_run by assumption.
+  unfold v1_line. cbn [v_first v_noise v_row v_ports].
+  replace (k =? 0) with false by (symmetry; apply Nat.eqb_neq; lia).
+  rewrite map_length, Hlen, Nat.eqb_refl. reflexivity.
+Qed.
+
+Lemma rows_run : forall h n fr ms j k l m, 1 <= k -> k + j = n -> Forall num_ok l -> length l = 2 * n * j ->
+  fold_left pstep (flat_map (fun row => map wnum row ++ [nl]) (chunks (2 * n) j l))
+            (W h n (if k =? n then 0 else k) fr (m :: ms)) =
+  W h n 0 fr ((m ++ pairs_of (map n_val l)) :: ms).
+Proof.
+  intros h n fr ms. induction j as [|j IH]; intros k l m Hk Hn Hok Hlen.
+  - replace k with n by lia. rewrite Nat.eqb_refl. destruct l; [|cbn in Hlen; lia].
+    cbn [chunks flat_map fold_left map pairs_of]. rewrite app_nil_r. reflexivity.
+  - replace (k =? n) with false by (symmetry; apply Nat.eqb_neq; lia).
+    rewrite chunks_S. cbn [flat_map]. rewrite fold_left_app.
+    assert (Hf : length (firstn (2 * n) l) = 2 * n) by (rewrite firstn_length; nia).
+    assert (Hs : length (skipn (2 * n) l) = 2 * n * j) by (rewrite skipn_length; nia).
+    assert (Hfo : Forall num_ok (firstn (2 * n) l)) by (apply Forall_firstn; assumption).
+    destruct (firstn (2 * n) l) as [|x xs] eqn:E; [cbn in Hf; lia|].
+    rewrite next_row_line by (assumption || lia).
+    rewrite (IH (S k)) by (try lia; try assumption; apply Forall_skipn; assumption).
+    rewrite <- app_assoc. rewrite <- (pairs_of_app n) by (rewrite map_length; exact Hf).
+    rewrite <- map_app, <- E, firstn_skipn. reflexivity.
+Qed.
+
+(* the first row of a frequency that is not on the first line of the file *)
+Lemma first_row_line : forall h n fr ms r xs, 1 <= n -> n <> 2 -> num_ok (fst r) -> Forall num_ok xs ->
+  length xs = 2 * n -> xlt (n_val (fst r)) xq0 = false -> fr_ok h fr r ->
+  fold_left pstep (map wnum (fst r :: xs) ++ [nl]) (W h n 0 fr ms) =
+  W h n (if 1 =? n then 0 else 1) (fq h r :: fr) (pairs_of (map n_val xs) :: ms).
+Proof.
+  intros h n fr ms r xs Hn1 Hn2 Hx Hok Hlen Hpos Hf. unfold W.
+  rewrite v1_line_run by (constructor; assumption).
+  unfold v1_line. cbn [v_first v_noise v_row v_ports Nat.eqb].
+  replace (n =? 2) with false by (symmetry; apply Nat.eqb_neq; lia).
+  rewrite map_length. cbn [length]. rewrite Hlen.
+  change (1 + 2 * n) with (S (2 * n)). rewrite Nat.eqb_refl.
+  unfold v1_first_row. cbn [map]. rewrite (v1_freq_some h _ r) by assumption.
+  rewrite (Nat.eqb_sym n 1). reflexivity.
+Qed.
+
+Lemma rec_run_n : forall h n r fr ms, 1 <= n -> n <> 2 -> rec_ok n r -> fr_ok h fr r ->
+  fold_left pstep (v1_record_lines n r) (W h n 0 fr ms) =
+  W h n 0 (fq h r :: fr) (pairs_of (map n_val (snd r)) :: ms).
+Proof.
+  intros h n r fr ms Hn1 Hn2 (Hx & Hpos & Hl & Hlen) Hf. unfold v1_record_lines.
+  replace (n =? 2) with false by (symmetry; apply Nat.eqb_neq; lia).
+  destruct n as [|j]; [lia|]. rewrite chunks_S. set (n := S j) in *.
+  rewrite fold_left_app.
+  assert (Hfl : length (firstn (2 * n) (snd r)) = 2 * n) by (rewrite firstn_length; nia).
+  assert (Hsl : length (skipn (2 * n) (snd r)) = 2 * n * j) by (rewrite skipn_length; nia).
+  change (wnum (fst r) :: map wnum (firstn (2 * n) (snd r)) ++ [nl])
+    with (map wnum (fst r :: firstn (2 * n) (snd r)) ++ [nl]).
+  rewrite first_row_line by (try assumption; try lia; apply Forall_firstn; assumption).
+  rewrite (rows_run h n (fq h r :: fr) ms j 1) by (try lia; try assumption; try (subst n; lia); apply Forall_skipn; assumption).
+  rewrite <- (pairs_of_app n) by (rewrite map_length; exact Hfl).
+  rewrite <- map_app, firstn_skipn. reflexivity.
+Qed.
+
+(* the first line of a file with 1 or 3 ports *)
+Lemma first_row_first : forall h n r xs, (n = 1 \/ n = 3) -> v1_hdr h -> is_hg (h_type h) = false ->
+  num_ok (fst r) -> Forall num_ok xs -> length xs = 2 * n -> xlt (n_val (fst r)) xq0 = false ->
+  fold_left pstep (map wnum (fst r :: xs) ++ [nl]) (SBody h) =
+  W h n (if 1 =? n then 0 else 1) [fq h r] [pairs_of (map n_val xs)].
+Proof.
+  intros h n r xs Hn Hh Hhg Hx Hok Hlen Hpos. unfold W.
+  rewrite v1_first_line_run by (auto; constructor; assumption).
+  pose proof (v1_freq_some h (mkv1 true 0 false 0 false [] []) r Hpos I) as HF.
+  unfold v1_line. cbn [v_first]. rewrite map_length. cbn [length]. rewrite Hlen, Hhg.
+  destruct Hn; subst n; cbn [Nat.mul Nat.add Nat.even Nat.ltb Nat.leb Nat.eqb orb Nat.sub];
+    unfold v1_first_row; cbn [map]; rewrite HF; reflexivity.
+Qed.
+
+Lemma rec_first_n : forall h n r, (n = 1 \/ n = 3) -> v1_hdr h -> is_hg (h_type h) = false -> rec_ok n r ->
+  fold_left pstep (v1_record_lines n r) (SBody h) = W h n 0 [fq h r] [pairs_of (map n_val (snd r))].
+Proof.
+  intros h n r Hn Hh Hhg (Hx & Hpos & Hl & Hlen). unfold v1_record_lines.
+  replace (n =? 2) with false by (symmetry; apply Nat.eqb_neq; lia).
+  destruct n as [|j]; [lia|]. rewrite chunks_S. set (n := S j) in *.
+  rewrite fold_left_app.
+  assert (Hfl : length (firstn (2 * n) (snd r)) = 2 * n) by (rewrite firstn_length; nia).
+  assert (Hsl : length (skipn (2 * n) (snd r)) = 2 * n * j) by (rewrite skipn_length; nia).
+  change (wnum (fst r) :: map wnum (firstn (2 * n) (snd r)) ++ [nl])
+    with (map wnum (fst r :: firstn (2 * n) (snd r)) ++ [nl]).
+  rewrite (first_row_first h n) by (try assumption; apply Forall_firstn; assumption).
+  rewrite (rows_run h n [fq h r] [] j 1) by (try lia; try assumption; try (subst n; lia); apply Forall_skipn; assumption).
+  rewrite <- (pairs_of_app n) by (rewrite map_length; exact Hfl).
+  rewrite <- map_app, firstn_skipn. reflexivity.
+Qed.
+
+(* ---- 4 ports: the first line is taken for a 2-port frequency, the second converts ------------------ *)
+Lemma four_port_first : forall h r xs, v1_hdr h -> is_hg (h_type h) = false ->
+  num_ok (fst r) -> Forall num_ok xs -> length xs = 8 -> xlt (n_val (fst r)) xq0 = false ->
+  fold_left pstep (map wnum (fst r :: xs) ++ [nl]) (SBody h) =
+  SV1Wait h (mkv1 false 2 true 0 false [fq h r] [v1_cells 2 (map n_val xs)]).
+Proof.
+  intros h r xs Hh Hhg Hx Hok Hlen Hpos.
+  rewrite v1_first_line_run by (auto; constructor; assumption).
+  pose proof (v1_freq_some h (mkv1 true 0 false 0 false [] []) r Hpos I) as HF.
+  destr8 xs Hlen. cbn [map]. unfold v1_line. cbn [v_first length Nat.even Nat.ltb Nat.leb Nat.eqb orb].
+  rewrite Hhg. unfold v1_two_port. rewrite HF. reflexivity.
+Qed.
+
+Lemma four_port_convert : forall h fr ms (vs : list xnum) xs, length vs = 8 -> Forall num_ok xs -> length xs = 8 ->
+  fold_left pstep (map wnum xs ++ [nl]) (SV1Wait h (mkv1 false 2 true 0 false fr (v1_cells 2 vs :: ms))) =
+  W h 4 2 fr ((pairs_of vs ++ pairs_of (map n_val xs)) :: ms).
+Proof.
+  intros h fr ms vs xs Hvs Hok Hlen. unfold W.
+  destr8 vs Hvs. destr8 xs Hlen.
+  rewrite v1_line_run by assumption. reflexivity.
+Qed.
+
+Lemma rec_first_4 : forall h r, v1_hdr h -> is_hg (h_type h) = false -> rec_ok 4 r ->
+  fold_left pstep (v1_record_lines 4 r) (SBody h) = W h 4 0 [fq h r] [pairs_of (map n_val (snd r))].
+Proof.
+  intros h r Hh Hhg (Hx & Hpos & Hl & Hlen). unfold v1_record_lines.
+  change (4 =? 2) with false. cbv iota. change (2 * 4) with 8. rewrite !chunks_S.
+  cbn [flat_map]. rewrite !fold_left_app.
+  set (l := snd r) in *. change (2 * 4 * 4) with 32 in Hlen.
+  assert (H1 : length (firstn 8 l) = 8) by (rewrite firstn_length; lia).
+  assert (H2 : length (firstn 8 (skipn 8 l)) = 8) by (rewrite firstn_length, skipn_length; lia).
+  assert (H3 : length (skipn 8 (skipn 8 l)) = 2 * 4 * 2) by (rewrite !skipn_length; lia).
+  change (wnum (fst r) :: map wnum (firstn 8 l) ++ [nl]) with (map wnum (fst r :: firstn 8 l) ++ [nl]).
+  rewrite four_port_first by (try assumption; apply Forall_firstn; assumption).
+  rewrite four_port_convert
+    by (try assumption; try (rewrite map_length; assumption); apply Forall_firstn, Forall_skipn; assumption).
+  change 8 with (2 * 4).
+  rewrite (rows_run h 4 [fq h r] [] 2 2) by (try lia; try assumption; apply Forall_skipn, Forall_skipn; assumption).
+  rewrite <- (pairs_of_app 4) by (rewrite map_length; exact H1).
+  rewrite <- (pairs_of_app 8) by (rewrite app_length, !map_length; change (2 * 4) with 8; lia).
+  rewrite <- !map_app, <- app_assoc, !firstn_skipn. reflexivity.
 Qed.
